@@ -129,6 +129,7 @@ class IncrementalCKY:
         Returns:
             The CKY chart for the prefix
         """
+        prefix = tuple(prefix)
         c = self._chart.get(prefix)
         if c is None:
             # Fill the cache for the missing prefixes from the shortest to the
@@ -164,7 +165,7 @@ class IncrementalCKY:
                 last_chart
             ]  # TODO: avoid list addition here as it is not constant time!
 
-    def next_token_weights(self, chart, prefix):
+    def next_token_weights(self, chart, prefix=None):
         """
         Compute the total weight for each possible next token following the prefix.
 
@@ -178,7 +179,7 @@ class IncrementalCKY:
         Returns:
             (Chart) Dictionary mapping possible next tokens to their weights # XXX
         """
-        k = len(prefix) + 1
+        k = len(chart)  # == len(prefix) + 1: one column per prefix position
 
         cfg = self.cfg
         terminal = self.terminal
